@@ -104,10 +104,8 @@ func runC04Deep(r *Run, rng *Rng, replay string) {
 		case "sopk":
 			f["sdst"] = sCode(wf, false, 128)
 			f["simm16"] = uint32(rng.Pick(0, 1, 65535, rng.Intn(65536)))
-			if op == 20 {
-				// s_setreg_imm32_b32 carries a 32-bit SIMM32 behind the first dword; the decoder does not consume it
-				// (finding C04-setreg-imm32-size, exercised by runC04Deep2): keep it out of the round-trip stream
-				continue
+			if op == 20 { // s_setreg_imm32_b32 carries a 32-bit SIMM32 behind the first dword
+				needLit = true
 			}
 		case "sop1":
 			src("ssrc0", sCode(wf, true, 256))
